@@ -1,6 +1,7 @@
 import ZstdVerif.Model.Conform
 import ZstdVerif.Model.Walker
 import ZstdVerif.Model.Bound
+import ZstdVerif.Model.Stream
 import Driver.Util
 namespace Driver.Dec
 open ZstdVerif
@@ -49,6 +50,45 @@ def step (_ : Unit) (ws : List String) : Unit × String :=
                 ||| (if tr.nbSeq ≥ 0x7F00 then 1 <<< 22 else 0)) c) 0
         ((), s!"ok frames={trs.size} blocks={blocks} seqs={seqs} cov={cov}")
   | ["cbound", n] => ((), if n.toNat! ≥ Gen.ZSTD_MAX_INPUT_SIZE then "E" else toString (Bound.compressBound n.toNat!))
+  | ["decprefix", cap, hx] =>
+      let b := if hx == "-" then ByteArray.empty else ByteArray.ofHex hx
+      ((), match Frame.decompressPrefix b {} cap.toNat! with
+           | .ok out => s!"ok {out.size} {XXH64.toHex16 (XXH64.hash out)}"
+           | .error e => s!"err {e.cls}")
+  | ["frameinfo", cap, hx] =>
+      -- per frame: end offset in the compressed stream and end offset in the regenerated content
+      let b := if hx == "-" then ByteArray.empty else ByteArray.ofHex hx
+      ((), match Frame.decompressAll b {} cap.toNat! with
+           | .ok (_, trs) => "ok " ++ ";".intercalate (trs.toList.map (fun t => s!"{t.start + t.size}:{t.regenStart + t.regenSize}"))
+           | .error e => s!"err {e.cls}")
+  | "dcheck" :: endsS :: totalS :: calls =>
+      -- trace inclusion of an observed ZSTD_decompressStream history into the specification LTS (Model/Stream.lean)
+      let ends := (endsS.splitOn ";").filterMap (fun e => match e.splitOn ":" with | [a, b] => some (a.toNat!, b.toNat!) | _ => none)
+      let total := totalS.toNat!
+      let rec goD (k cons prod : Nat) : List String → String
+        | [] => s!"ok calls={k} consumed={cons} produced={prod}"
+        | t :: rest =>
+          match t.splitOn ":" with
+          | [i, o, z] =>
+            match i.splitOn "/", o.splitOn "/" with
+            | [c, ia], [p, oc] =>
+              if z == "E" then s!"ok calls={k} (error reported)" else
+              if Stream.dlegalNum ends total cons prod ia.toNat! oc.toNat! c.toNat! p.toNat! (z == "0") then goD (k + 1) (cons + c.toNat!) (prod + p.toNat!) rest
+              else s!"illegal call {k}: {t} at consumed={cons} produced={prod}"
+            | _, _ => "bad-trace"
+          | _ => "bad-trace"
+      ((), goD 0 0 0 calls)
+  | ["hintsm", cap, hx] =>
+      -- model of the decoder's input pacing for every frame of the stream (first 12 requests, as the harness prints them)
+      let b := if hx == "-" then ByteArray.empty else ByteArray.ofHex hx
+      ((), match Frame.decompressAll b {} cap.toNat! with
+           | .ok (_, trs) =>
+             let shape (t : Frame.FrameTrace) : Stream.FrameShape :=
+               if t.hdr.skippable then ⟨true, t.hdr.headerSize, [0], false, t.size - 8⟩
+               else ⟨false, t.hdr.headerSize, t.blocks.toList.map (fun b => b.hdr.cSize), t.hdr.checksum, 0⟩
+             let hs := trs.toList.flatMap (fun t => Stream.hints (shape t))
+             "ok " ++ ",".intercalate ((hs.take 12).map toString)
+           | .error e => s!"err {e.cls}")
   | ["walk", hx] =>
       let b := if hx == "-" then ByteArray.empty else ByteArray.ofHex hx
       ((), match Walker.frames (fun i => b.u8 i) (b.size + 1) 0 b.size with
